@@ -25,7 +25,8 @@ def get_value(expr: ast.AST | astroid.NodeNG, allow_inference: bool = True) -> o
 
     if isinstance(expr, astroid.NodeNG):
         # AttributeError: 'AsStringVisitor3' object has no attribute 'visit_unknown'
-        with suppress(AttributeError):  # pragma: no cover
+        # ValueError: Exceeds the limit for integer string conversion
+        with suppress(AttributeError, ValueError):  # pragma: no cover
             renderred = expr.as_string()
             with suppress(ValueError, SyntaxError, TypeError):
                 return ast.literal_eval(renderred)
